@@ -3,7 +3,7 @@ import MythVerif.Proofs.WsQueueTsoTac
 namespace MythVerif.WsqTso
 open MythVerif.Wsq
 
-set_option maxHeartbeats 1000000 in
+set_option maxHeartbeats 4000000 in
 theorem t_vq0 (s s' : St) (p : Pid) : Inv s → s.tpc p = .vq0 → stepT s p = some s' → Inv s' := by
   intro h heq hs
   have hb := h.tbufE p (by simp [heq, mayBuf])
@@ -13,7 +13,7 @@ theorem t_vq0 (s s' : St) (p : Pid) : Inv s → s.tpc p = .vq0 → stepT s p = s
   simp only [ownerLocked, carry, resetting, ownerFlight] at *
   tso_finish
 
-set_option maxHeartbeats 1000000 in
+set_option maxHeartbeats 4000000 in
 theorem t_vq1 (s s' : St) (p : Pid) (t) : Inv s → s.tpc p = .vq1 t → stepT s p = some s' → Inv s' := by
   intro h heq hs
   have hb := h.tbufE p (by simp [heq, mayBuf])
@@ -24,7 +24,7 @@ theorem t_vq1 (s s' : St) (p : Pid) (t) : Inv s → s.tpc p = .vq1 t → stepT s
   all_goals simp only [ownerLocked, carry, resetting, ownerFlight] at *
   all_goals tso_finish
 
-set_option maxHeartbeats 1000000 in
+set_option maxHeartbeats 4000000 in
 theorem t_vc0 (s s' : St) (p : Pid) : Inv s → s.tpc p = .vc0 → stepT s p = some s' → Inv s' := by
   intro h heq hs
   have hb := h.tbufE p (by simp [heq, mayBuf])
@@ -35,7 +35,7 @@ theorem t_vc0 (s s' : St) (p : Pid) : Inv s → s.tpc p = .vc0 → stepT s p = s
   all_goals simp only [ownerLocked, carry, resetting, ownerFlight] at *
   all_goals tso_finish
 
-set_option maxHeartbeats 1000000 in
+set_option maxHeartbeats 4000000 in
 theorem t_vl (s s' : St) (p : Pid) : Inv s → s.tpc p = .vl → stepT s p = some s' → Inv s' := by
   intro h heq hs
   have hb := h.tbufE p (by simp [heq, mayBuf])
@@ -46,7 +46,7 @@ theorem t_vl (s s' : St) (p : Pid) : Inv s → s.tpc p = .vl → stepT s p = som
   all_goals simp only [ownerLocked, carry, resetting, ownerFlight] at *
   all_goals tso_finish
 
-set_option maxHeartbeats 1000000 in
+set_option maxHeartbeats 4000000 in
 theorem t_vc1 (s s' : St) (p : Pid) : Inv s → s.tpc p = .vc1 → stepT s p = some s' → Inv s' := by
   intro h heq hs
   have hb := h.tbufE p (by simp [heq, mayBuf])
